@@ -132,6 +132,8 @@ Qed.
 (* ---- (2) the current source text ---- *)
 
 Lemma src_flags_ok : src_flags = model_flags.                      Proof. reflexivity. Qed.
+Lemma src_cfg_ok : cfg_of_flags src_flags = Some repaired.         Proof. reflexivity. Qed.
+Lemma pinned_flags_cfg : cfg_of_flags (map (fun f => (f, Some false)) flag_names) = Some pinned.  Proof. reflexivity. Qed.
 Lemma src_reads_ok : src_reads = model_reads.                      Proof. reflexivity. Qed.
 Lemma src_classes_ok : src_classes = model_classes.                Proof. reflexivity. Qed.
 Lemma src_sites_ok : src_sites = model_sites.                      Proof. reflexivity. Qed.
